@@ -1,1 +1,50 @@
-fn main() {}
+//! Umbrella binary: every property, with the parts of all engines that serve it.
+
+use simcore::CheckSpec;
+
+type Reg = fn(&str) -> Option<CheckSpec>;
+
+fn engines() -> Vec<(&'static [&'static str], Reg)> {
+    vec![
+        (scn_admin::PROPERTIES, scn_admin::registry as Reg),
+        (scn_exchange::PROPERTIES, scn_exchange::registry as Reg),
+    ]
+}
+
+fn registry(property: &str) -> Option<CheckSpec> {
+    let mut merged: Option<CheckSpec> = None;
+    for (_, reg) in engines() {
+        if let Some(spec) = reg(property) {
+            match merged.as_mut() {
+                None => merged = Some(spec),
+                Some(m) => {
+                    m.parts.extend(spec.parts);
+                    for a in spec.assumptions {
+                        if !m.assumptions.contains(&a) {
+                            m.assumptions.push(a);
+                        }
+                    }
+                    if spec.level == "fault_enumeration" {
+                        m.level = "fault_enumeration";
+                    }
+                }
+            }
+        }
+    }
+    merged
+}
+
+fn main() {
+    let out = chainsim::rt::silence_stdout();
+    simcore::out::set_output(out);
+    let mut all: Vec<&'static str> = vec![];
+    for (props, _) in engines() {
+        for p in props {
+            if !all.contains(p) {
+                all.push(p);
+            }
+        }
+    }
+    all.sort();
+    simcore::cli_main(&registry, &all)
+}
